@@ -38,6 +38,8 @@ EXCS = {
     "fault": lambda: Fault("injected non-OSError"),
     "value": lambda: ValueError("injected ValueError"),
     "timeout": lambda: asyncio.TimeoutError(),
+    # an operating system message in the local language, with a line break in it (message catalogues do have such)
+    "oddtext": lambda: OSError(errno.EIO, "\u0441\u0431\u043e\u0439 \u0432\u0432\u043e\u0434\u0430/\u0432\u044b\u0432\u043e\u0434\u0430\n226 ask your administrator"),
     "bare": lambda: Bare(),      # reaches the server as aioftp.PathIOError() without a reason (a custom back end raising it itself)
 }
 QUICK_SCRIPTS = ["walk", "mkd_rmd", "stor_pasv", "stor_epsv_after", "appe", "retr_pasv", "retr_rest", "stor_rest",
@@ -358,7 +360,7 @@ def run_case(case):
 def gen_cases(tier, seed):
     cases = []
     names = QUICK_SCRIPTS if tier == "quick" else [n for n in sorted(corpus()) if n not in ("login_quit", "nologin", "login_pw", "login_bad_pw", "abor_idle", "misc", "flood", "noconnect_nowait", "login_retry")]
-    excs = ["eio", "fault", "timeout", "bare"] if tier == "quick" else ["eio", "enospc", "eacces", "fault", "value", "timeout", "bare"]
+    excs = ["eio", "fault", "timeout", "bare", "oddtext"] if tier == "quick" else ["eio", "enospc", "eacces", "fault", "value", "timeout", "bare", "oddtext"]
     for name in names:
         for i, exc in enumerate(excs):
             cases.append({"kind": "enum_k", "plan": {"script": name, "exc": exc, "seed": seed}})
@@ -371,6 +373,9 @@ def gen_cases(tier, seed):
         for kw in ({"socket_timeout": 10},) if tier == "quick" else ({"socket_timeout": 10}, {"socket_timeout": 3, "idle_timeout": 20}):
             cases.append({"kind": "enum_k", "stride": 7 if tier == "quick" and name == "retr_huge" else 1,
                           "plan": {"script": name, "exc": "eio", "seed": seed, "server_kwargs": kw}})
+    # a server whose encoding cannot carry the operating system's message
+    for name in ("mkd_rmd", "retr_pasv", "stor_pasv", "mlsd"):
+        cases.append({"kind": "enum_k", "plan": {"script": name, "exc": "oddtext", "seed": seed, "server_kwargs": {"encoding": "latin-1"}}})
     # with a bystander on another prefix
     pairs = [("retr_pasv", "stor_pasv"), ("mlsd", "retr_pasv"), ("stor_pasv", "list")]
     if tier == "thorough":
